@@ -5,6 +5,7 @@ import PdfModel.Lemmas.SuffixConcrete
 import PdfModel.Lemmas.ShiftXref
 import PdfModel.Lemmas.ShiftScan
 import PdfModel.Model.XrefStreamSection
+import PdfModel.Generated.Lexical
 
 /-!
 # C17 — bytes before the header do not change what is read
@@ -586,5 +587,27 @@ example : scanIs 62 65 (ScanLoop.scanC cEnv twoRev 0) = true := by decide +kerne
 example : scanIs 83 86 (ScanLoop.scanC cEnv (junk ++ twoRev) 21) = true := by decide +kernel
 example : scanIs 83 86 (ScanLoop.scanOldC cEnv (junk ++ twoRev) 21) = false := by decide +kernel
 example : findLast startxrefKw (twoRev.take (twoRev.length - 1)) = some 312 := by decide +kernel
+
+end Offsets
+
+/-! ## Tie to the source: constants and byte classes (appended by the translator package)
+
+`Generated/Lexical.lean` is re-extracted from `pdf/src` by `./check` before this file is built. -/
+
+namespace Offsets
+
+/-- the header search window, the header marker, the object-number bound and the lexical classes of the offset-level lexer are the ones of the source -/
+theorem constants_match_source :
+    (Offsets.headerWindow = Generated.headerWindow) ∧
+    (Offsets.headerMarker.map UInt8.toNat = Generated.headerMarker) ∧
+    (Offsets.maxId = Generated.maxId) ∧
+    ((List.range 256).filter (fun n => OffLex.isWs (UInt8.ofNat n)) = Generated.lexWhitespace) ∧
+    ((List.range 256).filter (fun n => OffLex.isDelim (UInt8.ofNat n)) = Generated.lexDelimiters) := by
+  refine ⟨?_, ?_, ?_, ?_, ?_⟩
+  · first | decide +kernel | fail "constants_match_source (C17): the model's Offsets.headerWindow does not match the source (Generated.headerWindow, re-extracted from pdf/src)"
+  · first | decide +kernel | fail "constants_match_source (C17): the model's Offsets.headerMarker does not match the source (Generated.headerMarker, re-extracted from pdf/src)"
+  · first | decide +kernel | fail "constants_match_source (C17): the model's Offsets.maxId does not match the source (Generated.maxId, re-extracted from pdf/src)"
+  · first | decide +kernel | fail "constants_match_source (C17): the model's OffLex.isWs does not match the source (Generated.lexWhitespace, re-extracted from pdf/src)"
+  · first | decide +kernel | fail "constants_match_source (C17): the model's OffLex.isDelim does not match the source (Generated.lexDelimiters, re-extracted from pdf/src)"
 
 end Offsets
